@@ -337,8 +337,17 @@ def d_priority(ctx, t):
     fn = find_function(t, "_compute_event_comparison_score")
     muls = [s for s in ast.walk(fn) if isinstance(s, ast.AugAssign) and isinstance(s.op, ast.Mult) and isinstance(s.value, ast.Name) and s.value.id == "priority"]
     ctx.floor("C04.d.priority", SM, "priority scaling of the match score", len(muls), 1)
+    cfg = CFG(fn)
+    finals = [n for n in cfg.nodes if n.kind == "stmt" and isinstance(n.ast, ast.Return) and isinstance(n.ast.value, ast.Name)]
     for m in muls:
         par = getattr(m, "_parent", None)
+        if isinstance(par, ast.If) and finals:
+            tnode = cfg.node_of(par.test)
+            allpaths = all(cfg.must_pass(cfg.entry, f, [tnode]) for f in finals)
+            ctx.check("C04.d.priority", SM, fn.name, "priority applied on every matching path", allpaths,
+                      "every path that returns a computed match score (action events, internal events, StartFlow) passes the priority scaling" if allpaths else
+                      "the priority scaling is skipped on some path to `return %s`: for those event kinds a declared flow priority is ignored and the conflict becomes a random tie" % src(finals[0].ast.value),
+                      line=par.lineno)
         ok = isinstance(par, ast.If) and re.sub(r"\s", "", src(par.test)) in ("priority", "priority>0", "priority>0.0", "priorityisnotNoneandpriority>0", "priorityandpriority>0")
         ctx.check("C04.d.priority", SM, fn.name, src(m), ok,
                   "the score is multiplied by the priority only when the priority is non-zero (guard `%s`)" % (src(par.test) if isinstance(par, ast.If) else None) if ok else
